@@ -25,7 +25,7 @@ func init() {
 				g = append(g, v[0], v[1])
 			}
 			m := gen.Magnitudes
-			g = gen.Alt(g, gen.Seq(gen.Lit("1.", "1-", "1a", "1:1.", "1~", "1^"), m), gen.Seq(m, gen.Lit(":1", "", "-1", ".1", "a")))
+			g = gen.Alt(g, gen.Seq(gen.Lit("1.", "1-", "1a", "1:1.", "1~", "1^"), m), gen.Seq(m, gen.Lit(":1", "", "-1", ".1", "a")), gen.Seq(gen.Lit("1.", "1-", "1a", "1~", "1^"), gen.LeadingZeros), gen.Seq(gen.Lit("1.", "1-"), gen.Lit("7", "8", "9", "10", "11")))
 			return g
 		},
 		Valid: ref.RpmValid,
